@@ -6,7 +6,7 @@
     written for AddHandler, the call/return labels, Stop, the loop, the watcher) and the reason
     clauses behind code 6 (state-level counterpart: RouterLife/Local.v [RInv], [stop_is_local]). *)
 From WM Require Import Base.Prelude Base.Count RouterLife.Model RouterLife.Monitor RouterLife.Inv
-                       RouterLife.ProofsA RouterLife.ProofsB RouterLife.Local RouterLife.Theorems.
+                       RouterLife.ProofsA RouterLife.ProofsB RouterLife.Local RouterLife.Theorems RouterLife.AcceptN.
 From RecordUpdate Require Import RecordSet.
 Import RecordSetNotations.
 
@@ -38,7 +38,38 @@ Proof.
   all: try (split; [congruence|intros; discriminate]).
 Qed.
 
-Definition okbad (m : mstate) : Prop := m_bad m = 0 \/ m_bad m = 1 \/ m_bad m = 6 \/ m_bad m = 10.
+(** the monitor checks 1 and 10 pass in every state in which the watcher's own Close has removed no handler *)
+Lemma removed_known s m h : NInv s m -> wremoved s = false -> m_closecalled m = false -> h_removed (hs s h) = false.
+Proof.
+  intros N W C. destruct (h_removed (hs s h)) eqn:R; auto. destruct (n_removed _ _ N h R); congruence.
+Qed.
+Lemma check1 s m : SInv s -> MInv s m -> NInv s m -> runningCh s = true -> wremoved s = false ->
+  m_closecalled m || forallb (m_subs m) (seq 0 (m_n_at_run m)) = true.
+Proof.
+  intros I K N R W. destruct (m_closecalled m) eqn:C; [reflexivity|]. simpl.
+  apply forallb_seq. intros h Hh. rewrite (k_subs _ _ K).
+  pose proof (i_running _ I R) as X.
+  assert (PL : main_past_lock (mainp s) = true) by (destruct (mainp s) as [| | | | | |[]]; simpl in *; congruence).
+  assert (RS : run_started (mainp s) = true) by (destruct (mainp s) as [| | | | | |[]]; simpl in *; congruence).
+  pose proof (k_atrun2 _ _ K PL) as L.
+  assert (St : h_started (hs s h) = true).
+  { apply (i_run_all _ I RS); [lia|]. eapply removed_known; eauto. }
+  destruct (i_hrec _ I h). destruct (r_subs1 St) as [E _]. now rewrite E.
+Qed.
+Lemma check10 s m t : SInv s -> MInv s m -> NInv s m -> all_started s = true -> wremoved s = false ->
+  m_closecalled m || forallb (m_subs m) (seq 0 (m_rh_n m t)) = true.
+Proof.
+  intros I K N A W. destruct (m_closecalled m) eqn:C; [reflexivity|]. simpl.
+  apply forallb_seq. intros h Hh. rewrite (k_subs _ _ K). pose proof (k_rhn _ _ K t) as L.
+  assert (St : h_started (hs s h) = true).
+  { apply (all_started_all s I A); [lia|]. eapply removed_known; eauto. }
+  destruct (i_hrec _ I h). destruct (r_subs1 St) as [E _]. now rewrite E.
+Qed.
+
+Section WithP.
+(** [PW]: "in this run the watcher's own Close removes a handler" (the corner the property's quantifier excludes) *)
+Variable PW : Prop.
+Definition okbad (m : mstate) : Prop := m_bad m = 0 \/ m_bad m = 6 \/ (PW /\ (m_bad m = 1 \/ m_bad m = 10)).
 
 Ltac dK K := destruct K as [K1 K2 K3 K4 K5 K6 K7 K8 K9 K10 K11 K12 K13].
 
@@ -70,7 +101,7 @@ Lemma minv_note s m : MInv s m -> MInv s (note_reason m).
 Proof. intros K. unfold note_reason. destruct (all_reason m); [|exact K]. eapply minv_mon; eauto. Qed.
 Lemma okbad_note m : okbad m -> okbad (note_reason m).
 Proof. unfold note_reason, okbad. destruct (all_reason m); auto. Qed.
-Lemma okbad_bad m c : c = 1 \/ c = 6 \/ c = 10 -> okbad m -> okbad (bad m c).
+Lemma okbad_bad m c : c = 6 \/ (PW /\ (c = 1 \/ c = 10)) -> okbad m -> okbad (bad m c).
 Proof. unfold okbad, bad. intros C B. destruct (m_bad m) eqn:E; simpl; [intuition|rewrite E; exact B]. Qed.
 Lemma okbad_same m m' : m_bad m' = m_bad m -> okbad m -> okbad m'.
 Proof. unfold okbad. intros ->. auto. Qed.
@@ -167,22 +198,23 @@ Qed.
 
 Ltac okb B := first [exact B | eapply okbad_same; [|exact B]; reflexivity].
 
-Lemma mstep_simple s m l s' evs : SInv s -> fix4 s = true -> MInv s m -> okbad m ->
+Lemma mstep_simple s m l s' evs : SInv s -> fix4 s = true -> MInv s m -> NInv s m -> (wremoved s = true -> PW) -> okbad m ->
   (l = LCancel \/ l = LObsRunning \/
    exists h, l = LStoppedGet h \/ l = LObsStarted h \/ l = LObsStopped h \/ l = LSubEnd h \/ l = LRecv h
              \/ l = LPublish h \/ l = LSubCtx h \/ (exists b, l = LHC h b)) ->
   step s l = Some (s', evs) -> MInv s' (mon_run m evs) /\ okbad (mon_run m evs).
 Proof.
-  intros I F4 K B [->|[->|(h & [->|[->|[->|[->|[->|[->|[->|(b & ->)]]]]]]])]] H; unfold step in H.
+  intros I F4 K N HP B [->|[->|(h & [->|[->|[->|[->|[->|[->|[->|(b & ->)]]]]]]])]] H; unfold step in H.
   - (* LCancel *) injection H as <- <-. simpl. split; [|okb B].
     eapply minv_mon; [mframe K|reflexivity..].
   - (* LObsRunning *) destruct (runningCh s) eqn:R; [|discriminate]. injection H as <- <-. simpl.
     assert (K' : MInv s (m <| m_running := true |>)).
     { dK K. constructor; simpl; auto. intros _.
       apply (i_isrun _ I). pose proof (i_running _ I R) as X. destruct (mainp s); try discriminate X; discriminate. }
-    destruct (m_closecalled m || forallb (m_subs m) (seq 0 (m_n_at_run m))).
+    destruct (m_closecalled m || forallb (m_subs m) (seq 0 (m_n_at_run m))) eqn:CK.
     + split; [exact K'|okb B].
-    + split; [now apply minv_bad|]. apply okbad_bad; auto.
+    + split; [now apply minv_bad|]. apply okbad_bad; auto. right. split; auto.
+      destruct (wremoved s) eqn:W; auto. rewrite (check1 s m I K N R W) in CK. discriminate.
   - (* LStoppedGet *) destruct (Nat.ltb h (nexth s)); [|discriminate]. injection H as <- <-. simpl.
     destruct (m_sobs m h) eqn:So; simpl; [|split; [exact K|exact B]].
     apply (k_sobs _ _ K) in So. destruct (i_hrec _ I h). destruct (r_fix4 F4 (or_introl (r_sch So))) as [_ SS].
@@ -379,10 +411,10 @@ Proof.
   - destruct K10 as [A B]. split; auto. intros t' X. updt t t'; [discriminate|eauto].
 Qed.
 
-Lemma mstep_lt s m t c s' evs : SInv s -> fix4 s = true -> MInv s m -> okbad m ->
+Lemma mstep_lt s m t c s' evs : SInv s -> fix4 s = true -> MInv s m -> NInv s m -> (wremoved s = true -> PW) -> okbad m ->
   step s (LT t c) = Some (s', evs) -> MInv s' (mon_run m evs) /\ okbad (mon_run m evs).
 Proof.
-  intros I F4 K B H. unfold step in H. destruct (thr s t) eqn:E; try discriminate H.
+  intros I F4 K N HP B H. unfold step in H. destruct (thr s t) eqn:E; try discriminate H.
   - (* TRunCheck *)
     destruct c; try discriminate H. destruct (isRunning s) eqn:R.
     + injection H as <- <-. simpl. split; [|okb B].
@@ -405,9 +437,13 @@ Proof.
     assert (K2 : MInv (set_t s1 t (TRH par p')) (mon_run m e1)).
     { apply minv_thr; auto; try discriminate. rewrite F5, E. discriminate. }
     rewrite mon_run_app. destruct p' as [| | | | | |[]]; simpl; try (split; [exact K2|exact B1]).
-    match goal with |- context [if ?c then _ else _] => destruct c end.
+    match goal with |- context [if ?c then _ else _] => destruct c eqn:CK end.
     + split; [exact K2|exact B1].
-    + split; [now apply minv_bad|]. apply okbad_bad; auto.
+    + split; [now apply minv_bad|]. apply okbad_bad; auto. right. split; auto.
+      destruct (wremoved s) eqn:W; auto. exfalso.
+      assert (X : p = HLoop /\ all_started s = true /\ e1 = []).
+      { unfold rh_step in RH. destruct p, c; try discriminate RH; destr RH; inversion RH; subst; auto. }
+      destruct X as (-> & A & ->). simpl in CK. rewrite (check10 s m t I K N A W) in CK. discriminate.
   - (* TStopRead *)
     destruct c; try discriminate H. destruct (h_started (hs s h)) eqn:St; injection H as <- <-; simpl.
     + split; [now apply minv_thr_stop|exact B].
@@ -433,52 +469,91 @@ Proof.
     destruct p'; simpl; split; auto.
 Qed.
 
-Theorem step_minv s m l s' evs : SInv s -> fix4 s = true -> MInv s m -> okbad m ->
+Theorem step_minv s m l s' evs : SInv s -> fix4 s = true -> MInv s m -> NInv s m -> (wremoved s = true -> PW) -> okbad m ->
   step s l = Some (s', evs) -> MInv s' (mon_run m evs) /\ okbad (mon_run m evs).
 Proof.
-  intros I F4 K B H. destruct l.
+  intros I F4 K N HP B H. destruct l.
   - eapply mstep_add; eauto.
   - eapply mstep_calls; [exact I|exact K|exact B| exists t; left; reflexivity | exact H].
   - eapply mstep_calls; [exact I|exact K|exact B| exists t; right; left; exists par; reflexivity | exact H].
   - eapply mstep_calls; [exact I|exact K|exact B| exists t; right; right; left; exists h; reflexivity | exact H].
   - eapply mstep_calls; [exact I|exact K|exact B| exists t; right; right; right; reflexivity | exact H].
-  - eapply mstep_simple; [exact I|exact F4|exact K|exact B| left; reflexivity | exact H].
-  - eapply mstep_simple; [exact I|exact F4|exact K|exact B| right; right; exists h; left; reflexivity | exact H].
-  - eapply mstep_simple; [exact I|exact F4|exact K|exact B| right; left; reflexivity | exact H].
-  - eapply mstep_simple; [exact I|exact F4|exact K|exact B| right; right; exists h; right; left; reflexivity | exact H].
-  - eapply mstep_simple; [exact I|exact F4|exact K|exact B| right; right; exists h; right; right; left; reflexivity | exact H].
-  - eapply mstep_simple; [exact I|exact F4|exact K|exact B| right; right; exists h; right; right; right; left; reflexivity | exact H].
-  - eapply mstep_simple; [exact I|exact F4|exact K|exact B| right; right; exists h; right; right; right; right; left; reflexivity | exact H].
-  - eapply mstep_simple; [exact I|exact F4|exact K|exact B| right; right; exists h; right; right; right; right; right; left; reflexivity | exact H].
-  - eapply mstep_simple; [exact I|exact F4|exact K|exact B| right; right; exists h; right; right; right; right; right; right; left; reflexivity | exact H].
+  - eapply mstep_simple; [exact I|exact F4|exact K|exact N|exact HP|exact B| left; reflexivity | exact H].
+  - eapply mstep_simple; [exact I|exact F4|exact K|exact N|exact HP|exact B| right; right; exists h; left; reflexivity | exact H].
+  - eapply mstep_simple; [exact I|exact F4|exact K|exact N|exact HP|exact B| right; left; reflexivity | exact H].
+  - eapply mstep_simple; [exact I|exact F4|exact K|exact N|exact HP|exact B| right; right; exists h; right; left; reflexivity | exact H].
+  - eapply mstep_simple; [exact I|exact F4|exact K|exact N|exact HP|exact B| right; right; exists h; right; right; left; reflexivity | exact H].
+  - eapply mstep_simple; [exact I|exact F4|exact K|exact N|exact HP|exact B| right; right; exists h; right; right; right; left; reflexivity | exact H].
+  - eapply mstep_simple; [exact I|exact F4|exact K|exact N|exact HP|exact B| right; right; exists h; right; right; right; right; left; reflexivity | exact H].
+  - eapply mstep_simple; [exact I|exact F4|exact K|exact N|exact HP|exact B| right; right; exists h; right; right; right; right; right; left; reflexivity | exact H].
+  - eapply mstep_simple; [exact I|exact F4|exact K|exact N|exact HP|exact B| right; right; exists h; right; right; right; right; right; right; left; reflexivity | exact H].
   - eapply mstep_lt; eauto.
   - eapply mstep_main; eauto.
   - eapply mstep_watch; eauto.
   - eapply mstep_loop; eauto.
-  - eapply mstep_simple; [exact I|exact F4|exact K|exact B| right; right; exists h; right; right; right; right; right; right; right; exists closing; reflexivity | exact H].
+  - eapply mstep_simple; [exact I|exact F4|exact K|exact N|exact HP|exact B| right; right; exists h; right; right; right; right; right; right; right; exists closing; reflexivity | exact H].
 Qed.
 
-Theorem hist_accepted ls : forall s m, SInv s -> fix4 s = true -> MInv s m -> okbad m ->
-  MInv (run s ls) (mon_run m (hist s ls)) /\ okbad (mon_run m (hist s ls)).
+End WithP.
+
+Lemma cl_wremoved s me p c s1 p' : cl_step s me p c = Some (s1, p') -> wremoved s = true -> wremoved s1 = true.
 Proof.
-  induction ls as [|l ls IH]; intros s m I F4 K B; simpl; [split; assumption|].
+  unfold cl_step, close_unstarted. intros X W. destruct p, c; try discriminate X; destr X; injection X as <- _; simpl; auto;
+    rewrite W; reflexivity.
+Qed.
+Lemma wremoved_step s l s' evs : step s l = Some (s', evs) -> wremoved s = true -> wremoved s' = true.
+Proof.
+  intros X W. destruct l; unfold step in X; destr X; injection X as <- _; subst;
+    repeat match goal with
+           | E : rh_step _ _ _ _ _ = Some _ |- _ => apply rh_nframe in E; destruct E as (E & _)
+           | E : cl_step _ _ _ _ = Some _ |- _ => apply cl_wremoved in E; [|exact W]
+           end; simpl in *; try congruence; try (unfold close_sub; simpl; congruence).
+Qed.
+Lemma wremoved_run ls : forall s, wremoved s = true -> wremoved (run s ls) = true.
+Proof.
+  induction ls as [|l ls IH]; intros s W; simpl; auto.
+  destruct (step s l) as [[s' evs]|] eqn:E; [|now apply IH]. apply IH. eapply wremoved_step; eauto.
+Qed.
+
+Theorem hist_accepted ls : forall s m, SInv s -> fix4 s = true -> MInv s m -> NInv s m ->
+  okbad (wremoved (run s ls) = true) m ->
+  okbad (wremoved (run s ls) = true) (mon_run m (hist s ls)).
+Proof.
+  induction ls as [|l ls IH]; intros s m I F4 K N B; simpl in *; [assumption|].
   destruct (step s l) as [[s' evs]|] eqn:E; [|now apply IH].
-  destruct (step_minv s m l s' evs I F4 K B E) as [K' B']. rewrite mon_run_app.
+  assert (HP : wremoved s = true -> wremoved (run s' ls) = true).
+  { intros W. apply wremoved_run. eapply wremoved_step; eauto. }
+  destruct (step_minv _ s m l s' evs I F4 K N HP B E) as [K' B']. rewrite mon_run_app.
   apply IH; auto.
   - eapply step_sinv; eauto.
   - rewrite (fix4_step _ _ _ _ E). exact F4.
+  - eapply step_ninv; eauto.
 Qed.
 
-(** The acceptor raises none of the codes 2, 3, 4, 5, 7 (nor the watchdog codes 8, 9, 11) on the API trace of
-    ANY run of the model with the D4 repair: its verdict is 0 or one of 1, 6, 10.  Not covered: clause 6
-    (its state-level counterpart is [RInv] / [stop_is_local]) and clauses 1 / 10 in the one corner where the
-    WATCHER's Close removed a handler that was added while the router was closing itself. *)
+(** monitor_accepts: on the API trace of ANY run of the model with the D4 repair in which the watcher's own Close
+    removed no handler (the corner the property's quantifier excludes: a handler added while the router was
+    closing itself), the acceptor raises none of the clauses 1, 2, 3, 4, 5, 7, 10 (nor 8, 9, 11): its verdict is
+    0 or 6.  Without that premise the verdict is 0 or one of 1, 6, 10. *)
+Theorem monitor_accepts f14 f15 f16 ls :
+  wremoved (run (rinit true f14 f15 f16) ls) = false ->
+  let v := verdict (hist (rinit true f14 f15 f16) ls) in v = 0 \/ v = 6.
+Proof.
+  intros W. unfold verdict.
+  destruct (hist_accepted ls (rinit true f14 f15 f16) minit) as [H|[H|[H _]]]; auto.
+  - apply sinv_init.
+  - apply minv_init.
+  - apply ninv_init.
+  - left. reflexivity.
+  - congruence.
+Qed.
+
 Theorem monitor_accepts_codes f14 f15 f16 ls :
   let v := verdict (hist (rinit true f14 f15 f16) ls) in v = 0 \/ v = 1 \/ v = 6 \/ v = 10.
 Proof.
-  unfold verdict. apply (hist_accepted ls (rinit true f14 f15 f16) minit).
+  unfold verdict.
+  destruct (hist_accepted ls (rinit true f14 f15 f16) minit) as [H|[H|[_ [H|H]]]]; auto.
   - apply sinv_init.
-  - reflexivity.
   - apply minv_init.
+  - apply ninv_init.
   - left. reflexivity.
 Qed.
